@@ -16,6 +16,7 @@ RULE = ('string lists up to the length bound over {empty string, ASCII, 2-/3-/4-
         'empty chunks interleaved, and fed to the real decode(); the concatenated text must equal the concatenated input and the '
         'one-shot decoder applied to the whole encoder output must agree (byte-order mark written once). Non-trivial = a cut inside '
         'a multi-byte sequence; states = distinct (encoding, pending-bytes-at-cut) situations.')
+DEEP_PROBES = ('json dump_to_file / load_from_file (lines and lines=False) x encoding x compression; 72 000-character texts; single chunks of 2^20, 2^20+1, 2^21+1 bytes; 65 560 items through one encoder; a second subscription after an early dispose')
 ASSUMPTIONS = ['one representative per UTF-8 length class plus combining mark and U+FEFF, not the full Unicode range',
                'streams longer than 13 bytes: at most 2 cuts']
 LEVEL_TEXT = ('Bounded-exhaustive model checking over byte-level chunk schedules of the real incremental codec operators for all '
